@@ -2,6 +2,7 @@ import LitexModel.Wishbone.InterconnectSoc
 import LitexProofs.Wishbone.Interconnect
 import LitexProofs.Soc.AcceptedDisjoint
 import LitexProofs.Soc.Finalize
+import LitexProofs.Export.Adapt
 /-
   Helper lemmas for the address-map glue of `SoCBusHandler` (C06): `check_regions_overlap` as computed
   (`checkRegionsOverlap`) against C13's `anyOverlap`, and the C06 region predicate `regionDec` against C13's
@@ -200,6 +201,62 @@ theorem portAdr_none (c : SocRCfg) (i a : Nat) (h : c.remaps[i]? = none ∨ c.re
     c.portAdr i a = a := by
   unfold SocRCfg.portAdr
   rcases h with h | h <;> rw [h]
+
+/-! ### `add_adapter` addressing conversion (C14's `convM2S`/`convS2M` and its address-preservation lemmas) -/
+
+/-- A byte-addressed master port driving byte address `a` puts the bus word `a / 2^sh` on the bus
+    (C14 `Export.masterBus_spec`: the SoC bus sees the access's own bus word). -/
+theorem masterAdr_byte (c : SocRCfg) (i a : Nat) (hb : c.mByte.getD i false = true)
+    (ha : a < 2 ^ c.soc.aw) (hs : c.sh ≤ c.soc.aw) : c.masterAdr i a = a / 2 ^ c.sh := by
+  have h := (Export.masterBus_spec .wbbyte false c.sh c.soc.aw a ha hs).1
+  have e : Export.masterBus .wbbyte false c.sh c.soc.aw a =
+      Export.convM2S false true c.sh (c.soc.aw - c.sh) (a % 2 ^ c.soc.aw) * 2 ^ c.sh := rfl
+  rw [e, Nat.mul_div_cancel _ (Nat.two_pow_pos _), Nat.mod_eq_of_lt ha] at h
+  unfold SocRCfg.masterAdr
+  rw [if_pos hb]; exact h
+
+theorem masterAdr_word (c : SocRCfg) (i a : Nat) (hb : c.mByte.getD i false = false) : c.masterAdr i a = a := by
+  unfold SocRCfg.masterAdr
+  rw [if_neg (by rw [hb]; simp)]
+
+/-- A byte-addressed slave port sees the base byte address of the bus word (C14 `Export.chainWord_eq`: the word index
+    at the slave is the bus word). -/
+theorem slaveAdr_byte (c : SocRCfg) (j w : Nat) (hb : c.sByte.getD j false = true)
+    (hw : w < 2 ^ (c.soc.aw - c.sh)) : c.slaveAdr j w = w * 2 ^ c.sh ∧ c.slaveAdr j w / 2 ^ c.sh = w := by
+  have e : c.slaveAdr j w = w * 2 ^ c.sh := by
+    unfold SocRCfg.slaveAdr
+    rw [if_pos hb]
+    simp [Export.convS2M, Nat.mod_eq_of_lt hw]
+  exact ⟨e, by rw [e, Nat.mul_div_cancel _ (Nat.two_pow_pos _)]⟩
+
+theorem slaveAdr_word (c : SocRCfg) (j w : Nat) (hb : c.sByte.getD j false = false) : c.slaveAdr j w = w := by
+  unfold SocRCfg.slaveAdr
+  rw [if_neg (by rw [hb]; simp)]
+
+/-- An aligned region of at least one bus word contains a byte address iff it contains the base of its bus word. -/
+theorem inWindow_word_base (r : Region) (sh a : Nat) (hal : r.origin % r.p2 = 0) (hw : 2 ^ sh ≤ r.p2) :
+    r.InWindow (a / 2 ^ sh * 2 ^ sh) ↔ r.InWindow a := by
+  have hp2 : r.p2 = 2 ^ Soc.clog2 r.size := rfl
+  have hsh : sh ≤ Soc.clog2 r.size := by
+    rw [hp2] at hw; exact (Nat.pow_le_pow_iff_right (by decide)).1 hw
+  have hsplit : r.p2 = 2 ^ (Soc.clog2 r.size - sh) * 2 ^ sh := by
+    rw [hp2, ← Nat.pow_add]; congr 1; omega
+  obtain ⟨q, hq⟩ := Nat.dvd_of_mod_eq_zero hal
+  have hW : 0 < 2 ^ sh := Nat.two_pow_pos sh
+  generalize hu : 2 ^ (Soc.clog2 r.size - sh) = P at hsplit
+  have ho : r.origin = (P * q) * 2 ^ sh := by
+    rw [hq, hsplit, Nat.mul_assoc, Nat.mul_assoc, Nat.mul_comm (2 ^ sh) q]
+  have he : r.origin + r.p2 = (P * q + P) * 2 ^ sh := by rw [ho, hsplit, Nat.add_mul]
+  have hdm := Nat.div_mul_le_self a (2 ^ sh)
+  unfold Region.InWindow
+  rw [he, ho]
+  constructor
+  · rintro ⟨h1, h2⟩
+    refine ⟨Nat.le_trans h1 hdm, ?_⟩
+    have : a / 2 ^ sh < P * q + P := Nat.lt_of_mul_lt_mul_right h2
+    exact (Nat.div_lt_iff_lt_mul hW).1 this
+  · rintro ⟨h1, h2⟩
+    refine ⟨Nat.mul_le_mul_right _ ((Nat.le_div_iff_mul_le hW).2 h1), Nat.lt_of_le_of_lt hdm h2⟩
 
 /-! ### Whole build histories (C13's handler invariant carried through `glueRun`) -/
 
